@@ -1136,6 +1136,7 @@ static int ec_source(char *loc, char *cmd, char *arg, char *txt)
 	sb = sbuf_make();
 	while ((nr = read(fd, buf, sizeof(buf))) > 0)
 		sbuf_mem(sb, buf, nr);
+	close(fd);
 	ex_command(sbuf_buf(sb));
 	sbuf_free(sb);
 	return 0;
@@ -1429,7 +1430,15 @@ static int ex_exec(char *ln)
 /* execute a single ex command */
 int ex_command(char *ln)
 {
-	int ret = ex_exec(ln);
+	static int depth;	/* commands that run commands: @ ra so */
+	int ret = 1;
+	if (depth < 64) {
+		depth++;
+		ret = ex_exec(ln);
+		depth--;
+	} else {
+		ex_show("commands nested too deeply");
+	}
 	lbuf_modified(xb);
 	return ret;
 }
